@@ -2,7 +2,7 @@
    Final statements only. *)
 From Coq Require Import List Arith Bool String ZArith Lia.
 From Verif Require Import C18.Lockset C18.Trace C18.Discipline C18.Publication C18.Accesses C18.Expected
-  C18.Model C18.Isolation.
+  C18.Model C18.Isolation C18.Selection C18.SelectionProofs.
 Import ListNotations.
 Local Open Scope list_scope.
 
@@ -333,3 +333,68 @@ Example C18_isolation_side_condition_satisfiable :
   no_overlap_clear init2 [Begin 1; Use2 1; Clean2 1; Begin 2; Use2 2; Clean2 2]%Z = true /\
   run2 init2 [Begin 1; Use2 1; Clean2 1; Begin 2; Use2 2; Clean2 2]%Z = [(1, true); (2, false)]%Z.
 Proof. split; vm_compute; reflexivity. Qed.
+
+(* ================================================================== *)
+(* 4''. The flows a transaction SELECTED are per-transaction state too (Selection.v):
+   between its look-up (FilterTree.GetFlow) and the execution of the selected flows
+   other transactions do their own look-ups. The model has a variant switch for the
+   owner of the list the look-up adopts: [shared = false] = the look-up copies (the
+   code), [shared = true] = the look-up hands out the wildcard node's own slice
+   (seeded change C18-7). Full statement over BOTH variants, every configuration and
+   every schedule of look-ups and uses: at every use a transaction finds the flows of
+   its own last look-up. *)
+Definition C18_selection_full : Prop :=
+  forall shared c ops, sel_ok shared c sinit [] ops = true.
+
+(* Refuted by the seeded variant: three flows on the wildcard node (spare capacity),
+   transaction 2's look-up falls between transaction 1's look-up and its use. *)
+Theorem C18_selection_full_refuted : ~ C18_selection_full.
+Proof.
+  intros H. specialize (H true sel_witness_cfg sel_witness_ops).
+  rewrite sel_witness_fails in H. discriminate.
+Qed.
+Print Assumptions C18_selection_full_refuted.
+
+(* What holds, for ALL schedules, configurations and transactions: when the look-up
+   copies (the variant [run_selection] checks the real filter tree against), or the
+   node's slice has no spare capacity, nobody's look-up changes what another
+   transaction selected. The side condition is decidable; its complement
+   ([shared = true] with spare capacity) is exactly the seeded behaviour. *)
+Theorem C18_selection_isolated_outside_shared_node_slice :
+  forall shared c, shared && spare c = false ->
+  forall ops, sel_ok shared c sinit [] ops = true.
+Proof. intros shared c Hv ops. exact (sel_isolated shared c Hv ops sinit [] sinv_init). Qed.
+Print Assumptions C18_selection_isolated_outside_shared_node_slice.
+
+Corollary C18_selection_isolated_when_lookup_copies :
+  forall c ops, sel_ok false c sinit [] ops = true.
+Proof. intros c ops. apply C18_selection_isolated_outside_shared_node_slice. reflexivity. Qed.
+Print Assumptions C18_selection_isolated_when_lookup_copies.
+
+(* the hypotheses are satisfiable on a non-trivial schedule (overlapping look-ups on
+   a node WITH spare capacity), and the statement is not vacuous: the uses read the
+   transactions' own flows *)
+Example C18_selection_nontrivial :
+  sel_ok false sel_witness_cfg sinit [] [Lookup 1 10; Lookup 2 20; UseSel 1; UseSel 2; Lookup 1 30; UseSel 1]%Z = true /\
+  srun false sel_witness_cfg sinit [Lookup 1 10; Lookup 2 20; UseSel 1; UseSel 2; Lookup 1 30; UseSel 1]%Z
+    = [[(-1); (-2); (-3); 10]; [(-1); (-2); (-3); 20]; [(-1); (-2); (-3); 30]]%Z /\
+  srun true sel_witness_cfg sinit sel_witness_ops = [[(-1); (-2); (-3); 20]]%Z.
+Proof. repeat split; vm_compute; reflexivity. Qed.
+
+(* ================================================================== *)
+(* 2'. Package-level variables are fields of one pseudo-object per package
+   ("pkg.(var).name") in the regenerated facts, so C18_tree_racy_fields2 /
+   C18_tree_race_free_pub cover them like any field; they are never generation
+   fields (no publication exemption). The seeded behaviour C18-8 in the fact
+   vocabulary: every transaction draws from one package-level *rand.Rand (a method
+   call on a non-thread-safe library type = a write) with no lock. Such a fact list
+   is reported: a fact conflicts with itself when its role is multi. *)
+Example C18_package_variable_unprotected_is_reported :
+  let f := mkFact "streams/config.(var).sampleSource" Wr "txn" [] [] in
+  unprotected_pair2 multi_roles generation_fields consumer_roles f f = true /\
+  racy_fields2 multi_roles generation_fields consumer_roles [f] = ["streams/config.(var).sampleSource"%string] /\
+  mem "streams/config.(var).sampleSource" generation_fields = false /\
+  (* the same access under a mutex held by every transaction is not reported *)
+  racy_fields2 multi_roles generation_fields consumer_roles
+    [mkFact "streams/config.(var).sampleSource" Wr "txn" ["streams/config.sampleMu"%string] []] = [].
+Proof. repeat split; vm_compute; reflexivity. Qed.
